@@ -50,7 +50,8 @@ CACHE = cfgd(NS=2, NG=2, InitSBases='<-SB_Chain2', InitRBases='<-RB_Two',
              LookKeys='<-LookKeysCache', RBaseChoices='<-RBaseChoicesCache',
              SBaseChoices='<-SBaseChoicesCache', MaxLive=2, MaxDepth=5)
 CHAIN = cfgd(NS=1, NG=3, InitSBases='<-SB_One', InitRBases='<-RB_None3',
-             Names='<-NamesE', Muts='{"reg","unreg","sub","regbases"}',
+             Names='<-NamesE',
+             Muts='{"reg","unreg","sub","regbases","rebuild"}',
              Queries='{"lookup","subs"}', RegKeys='<-RegKeysChain',
              SubKeys='<-SubKeysChain', LookKeys='<-LookKeysChain',
              RBaseChoices='<-RBaseChoices3s', MaxLive=2, MaxDepth=5)
@@ -184,15 +185,25 @@ PLAN = {
                                                    components=True)),
             ('chain d5 verify', 'edges', dict(CHAIN, Flavour='"verify"'),
              dict(sb='SB_One', rb='RB_None3')),
-            ('chain3 d4 push', 'edges',
-             dict(CHAIN, InitRBases='<-RB_Chain3', MaxDepth=4),
-             dict(sb='SB_One', rb='RB_Chain3')),
-            ('chain3 d4 verify', 'edges',
-             dict(CHAIN, InitRBases='<-RB_Chain3', MaxDepth=4,
+            ('chain3 d5 push', 'edges',
+             dict(CHAIN, InitRBases='<-RB_Chain3', MaxDepth=5),
+             dict(sb='SB_One', rb='RB_Chain3', components=True)),
+            ('chain3 d5 verify', 'edges',
+             dict(CHAIN, InitRBases='<-RB_Chain3', MaxDepth=5,
                   Flavour='"verify"'),
              dict(sb='SB_One', rb='RB_Chain3')),
             ('diamond5 d4 push', 'edges', DIAMOND,
              dict(sb='SB_One', rb='RB_Diamond5', components=True)),
+            # histories (transition coverage uses shortest prefixes, and an
+            # operation that leaves the abstract state unchanged, such as
+            # rebuild(), is never on one)
+            ('chain3 sim push', 'sim',
+             dict(CHAIN, InitRBases='<-RB_Chain3', MaxLive=3, MaxDepth=100),
+             dict(sb='SB_One', rb='RB_Chain3', num=300, depth=14)),
+            ('chain3 sim verify', 'sim',
+             dict(CHAIN, InitRBases='<-RB_Chain3', MaxLive=3, MaxDepth=100,
+                  Flavour='"verify"'),
+             dict(sb='SB_One', rb='RB_Chain3', num=300, depth=14)),
         ],
         'thorough': [
             ('chain d6 push', 'edges',
